@@ -49,7 +49,10 @@ type Event struct {
 
 // Log is the event log: one atomic sequence, one monotonic clock, one mutex-guarded slice.
 type Log struct {
-	mu   sync.Mutex
+	// OutDelay, when set, is called with the text of every captured output record before it is
+	// appended (lets a case emulate a slow terminal or log sink).
+	OutDelay func(text string)
+	mu       sync.Mutex
 	evs  []Event
 	seq  atomic.Int64
 	base time.Time
@@ -129,6 +132,9 @@ func (h *captureHandler) Handle(_ context.Context, r slog.Record) error {
 		rec("", a)
 	}
 	r.Attrs(func(a slog.Attr) bool { rec("", a); return true })
+	if h.log.OutDelay != nil {
+		h.log.OutDelay(sb.String())
+	}
 	h.log.Add("out.log", "", "", 0, sb.String())
 	return nil
 }
@@ -147,6 +153,9 @@ type captureWriter struct {
 }
 
 func (w *captureWriter) Write(p []byte) (int, error) {
+	if w.log.OutDelay != nil {
+		w.log.OutDelay(string(p))
+	}
 	w.log.Add(w.kind, "", "", 0, string(p))
 	return len(p), nil
 }
